@@ -438,15 +438,25 @@ class MultiFit(FitBase):
 
         _error_dict = dict(err=error_object, enabled=True, axis=axis, reference_name=reference)
         self._shared_error_dicts[name] = _error_dict
-        for _fit_index in error_object.fit_indices:
-            _fit = self._fits[_fit_index]
-            if reference == "data":
-                _target = _fit.data_container
-            elif reference == "model":
-                _target = _fit._param_model
-            else:
-                raise ValueError()
-            _target._add_error_object(name=name, error_object=error_object, axis=axis)
+        _targets = []
+        try:
+            for _fit_index in error_object.fit_indices:
+                _fit = self._fits[_fit_index]
+                if reference == "data":
+                    _target = _fit.data_container
+                elif reference == "model":
+                    _target = _fit._param_model
+                else:
+                    raise ValueError()
+                _target._add_error_object(name=name, error_object=error_object, axis=axis)
+                _targets.append(_target)
+        except Exception:
+            # a source that one of the fits refuses must not stay registered anywhere
+            del self._shared_error_dicts[name]
+            for _target in _targets:
+                del _target._error_dicts[name]
+                _target._clear_total_error_cache()
+            raise
         self._on_error_change()
         return name
 
